@@ -759,8 +759,12 @@ def replay(prop, path):
             exe = run.cargo_build(prof)
             impl, model = run.run_pair(exe, PROFILE_FLAGS[prof][2], sub, "replay-" + prof)
             for r, i, m in zip(sub, impl, model):
-                ok = run.match(m[1], i) and i == m[0]
-                print(("ok   " if ok else "FAIL ") + f"[{prof}] {r}\n      impl=[{i}] model=[{m[0]}] spec=[{m[1]}]")
+                # the verdict is the one of the check itself (per-step matching of schedules, open known findings)
+                n0, k0 = len(run.violations), sum(run.known_hits.values())
+                run.compare([r], [i], [m], prof, count=False)
+                ok = len(run.violations) == n0
+                kn = " (open known finding)" if sum(run.known_hits.values()) > k0 else ""
+                print(("ok   " if ok else "FAIL ") + f"[{prof}] {r}{kn}\n      impl=[{i}] model=[{m[0]}] spec=[{m[1]}]")
                 bad += 0 if ok else 1
     if run.broken_obligations:
         for b in run.broken_obligations:
